@@ -516,6 +516,11 @@ func runInstance(prog *ssa.Program, inst instance, known map[string]bool, solver
 	mirrorTotals.Agree += solver.MirrorStats.Agree
 	mirrorTotals.Disagree += solver.MirrorStats.Disagree
 	mirrorTotals.Unknown += solver.MirrorStats.Unknown
+	freshTotals.Runs += solver.FreshStats.Runs
+	freshTotals.SatRefuted += solver.FreshStats.SatRefuted
+	freshTotals.SatConfirmed += solver.FreshStats.SatConfirmed
+	freshTotals.UnknownDecided += solver.FreshStats.UnknownDecided
+	freshTotals.Undecided += solver.FreshStats.Undecided
 	mirrorMu.Unlock()
 	return instResult{inst: inst, stats: ex.Stats, solver: solver.Stats, funcs: in.SortedFuncs(), stubs: in.SortedStubs()}
 }
@@ -950,6 +955,7 @@ var activeKnown string
 var globalSiteNames []string
 var mirrorMu sync.Mutex
 var mirrorTotals struct{ Checked, Agree, Disagree, Unknown int }
+var freshTotals struct{ Runs, SatRefuted, SatConfirmed, UnknownDecided, Undecided int }
 
 func writeEvidence(verif string, cfg *checkCfg, tier string, seed int, a *aggT, wall time.Duration, confirmed int, repo string) {
 	var funcs []string
@@ -1030,6 +1036,7 @@ func writeEvidence(verif string, cfg *checkCfg, tier string, seed int, a *aggT, 
 			"path_witnesses_agreeing":       witnessOK,
 			"repo_tree_hash":                repoHash(repo, funcs),
 			"map_range_sites":               siteReport(a),
+			"fresh_process_rechecks":        map[string]interface{}{"runs": freshTotals.Runs, "incremental_sat_refuted": freshTotals.SatRefuted, "incremental_sat_confirmed": freshTotals.SatConfirmed, "incremental_unknown_decided": freshTotals.UnknownDecided, "undecided": freshTotals.Undecided},
 			"second_solver":                 map[string]interface{}{"name": solver2Kind, "obligations_rechecked": mirrorTotals.Checked, "agree": mirrorTotals.Agree, "disagree": mirrorTotals.Disagree, "undecided": mirrorTotals.Unknown},
 		},
 	}
